@@ -27,7 +27,9 @@ Definition byte_at (i : nat) (st : store) : option byte := nth_error st i.
 Inductive event :=
 | EvSeek (o : nat)
 | EvWrite (bs : list byte)
-| EvTrunc (n : nat).
+| EvTrunc (n : nat)
+| EvResize (n : nat).   (* FileImage.resize: Seek(0, End); then Truncate(n) if n < size,
+                           or Seek(n-1) + Write of one zero byte if n > size *)
 
 (* Storage of the POSIX-file backend: contents and file position. *)
 Record fstate := mkF { f_bytes : store; f_pos : nat }.
@@ -41,6 +43,11 @@ Definition file_apply (ev : event) (s : fstate) : fstate :=
       | _ => mkF (nwrite (f_pos s) bs (f_bytes s)) (f_pos s + length bs)
       end
   | EvTrunc n => mkF (ntrunc n (f_bytes s)) (f_pos s)
+  | EvResize n =>
+      let size := length (f_bytes s) in
+      if Nat.ltb n size then mkF (firstn n (f_bytes s)) size
+      else if Nat.ltb size n then mkF (nwrite (n - 1) [x00] (f_bytes s)) n
+      else mkF (f_bytes s) size
   end.
 
 Definition file_run (tr : list event) (s : fstate) : fstate :=
